@@ -5,6 +5,8 @@ import (
 	"crypto/rand"
 	"encoding/hex"
 	"encoding/json"
+
+	oasisEd25519 "github.com/oasisprotocol/curve25519-voi/primitives/ed25519"
 )
 
 const (
@@ -139,7 +141,10 @@ func (p *ED25519PublicKey) VerifyBytes(msg []byte, sig []byte) (valid bool) {
 	if cached {
 		return true
 	}
-	if valid = ed25519.Verify(p.PublicKey, msg, sig); valid {
+	// NOTE: use the same verification semantics as the batch verifier (key_batch.go); the standard library performs
+	// cofactorless verification while the batch verifier is cofactored, so a signature could be valid on one path and
+	// invalid on the other - making validity depend on batch neighbours and the signature cache
+	if valid = oasisEd25519.Verify(oasisEd25519.PublicKey(p.PublicKey), msg, sig); valid {
 		addToCache()
 	}
 	return
